@@ -62,3 +62,22 @@ package minersc
 //@   at-call getRewardedMiner assert[split-is-exact] minerRewards + sharderRewards == blockReward && minerFees + sharderFees == fees
 //@   at-call DistributeRewardsRandN assert[miner-side-amounts] ($arg1 == minerRewards || $arg1 == minerFees) && minerRewards + sharderRewards == blockReward && minerFees + sharderFees == fees
 //@   at-call payShardersAndDelegates assert[sharder-side-amounts] ($arg3 == sharderFees || $arg3 == sharderRewards) && minerRewards + sharderRewards == blockReward && minerFees + sharderFees == fees
+
+// ---------------------------------------------------------------- view-change node selection (C39)
+//@ iface 0chain.net/smartcontract/minersc.Pooler.HasNode
+//@   params self id
+//@   pure
+
+// reduce returns min(limit, number of candidates). When more candidates remain than free places,
+// the candidates tied at the cut-off stake are the contiguous range [s, e) of the stake-sorted list
+// that starts at the FIRST candidate with that stake - every candidate of that stake takes part in
+// the seeded draw, none is taken (or left out) because of its id.
+//@ func (SimpleNodes).reduce
+//@   prop C39
+//@   ensures[exact-count] maxNodes == min(limit, old(len(sns)))
+//@   at-call Perm assert[tie-range-starts-at-first-tied] 0 <= s && s < len(newNodes) ==> newNodes[s].TotalStaked == stake && (forall k in 0..s :: newNodes[k].TotalStaked != stake)
+//@   at-call Perm assert[tie-range-found] 0 <= s
+//@   loop 2 header "for i, sn := range newNodes"
+//@   loop 2 invariant -1 <= s && s <= $idx && e == len(newNodes)
+//@   loop 2 invariant s >= 0 ==> newNodes[s].TotalStaked == stake
+//@   loop 2 invariant forall k in 0..(s >= 0 ? s : $idx + 1) :: newNodes[k].TotalStaked != stake
